@@ -1199,6 +1199,11 @@ func cdMutate(r *run, base []byte) (string, []byte) {
 	}
 }
 
+func cdIsJSONObject(b []byte) bool {
+	var m map[string]json.RawMessage
+	return json.Unmarshal(b, &m) == nil && m != nil
+}
+
 // cdJsonMutations: VERIF_N documents derived from valid encodings. VERIF_ARGS:
 // coq=K, failures=1 as for the round-trip families.
 func cdJsonMutations(t *testing.T, r *run) {
@@ -1214,8 +1219,15 @@ func cdJsonMutations(t *testing.T, r *run) {
 			continue
 		}
 		b, err := sessions.VerifMake(view).MarshalJSON()
-		if err == nil {
+		if err == nil && cdIsJSONObject(b) {
 			bases = append(bases, b)
+		} else {
+			// an encoding that is not a JSON object is the round-trip family's
+			// finding; it cannot serve as the base of a mutation
+			hist["base-invalid"]++
+			if hist["base-invalid"] > 100000 {
+				t.Fatalf("MarshalJSON never produces a JSON object")
+			}
 		}
 	}
 	for i := 0; i < r.n; i++ {
@@ -1223,7 +1235,7 @@ func cdJsonMutations(t *testing.T, r *run) {
 			// keep the pool of valid encodings fresh
 			view, _, _ := cdGenSession(r, true)
 			if len(view.Data) <= 20 {
-				if b, err := sessions.VerifMake(view).MarshalJSON(); err == nil {
+				if b, err := sessions.VerifMake(view).MarshalJSON(); err == nil && cdIsJSONObject(b) {
 					bases[r.rng.IntN(len(bases))] = b
 				}
 			}
